@@ -148,7 +148,9 @@ def family_table(rng, nareas=None, regs=True):
         base += size + rng.choice([0, 0, 1, 3])
     entries = []
     if regs:
-        for a in areas:
+        for ai, a in enumerate(areas):
+            if na >= 2 and rng.random() < 0.3:
+                continue                                   # an area without registers (its first/last/count fields are all zero)
             pos = a[0] + rng.choice([0, 0, 1])
             while pos < a[0] + a[1]:
                 t = rng.choice([0, 1, 2, 3, 4, 5, 6, 7, 0, 1])
